@@ -17,6 +17,7 @@ class Contract:
         self.always = dict(kw.pop("always", {}))            # label -> expr  (every exit)
         self.raises = kw.pop("raises", None)                # None = unconstrained; list of class names allowed to escape
         self.modifies = kw.pop("modifies", None)            # None = unconstrained; list of "self.f" paths
+        self.reads = kw.pop("reads", None)                  # None = unconstrained; fields of `self` the function may read (its result depends on nothing else)
         self.params = dict(kw.pop("params", {}))            # param -> type spec (overrides annotations)
         self.callbacks = dict(kw.pop("callbacks", {}))      # path -> callback spec
         self.callsite_pre = dict(kw.pop("callsite_pre", {}))  # callee pattern -> {label: expr}
